@@ -143,6 +143,17 @@ def run_case(j, e, s):
                 if pj.shape == (3,):
                     check(j, incidence_residual(L, pj, max(mag, abs(c["j"]) * nw)) <= TOL, "Plucker.point", feat,
                           "point-off-line", detail, ("point", "incidence", s))
+            # several parameters at once: column k is the point of parameter k (the exact one at j |w| among them)
+            lams = [c["j"] * nw, 0.0, -0.5 * nw, 2.0 * nw]
+            for site, arg in (("Plucker.point(list)", lams), ("Plucker.point(ndarray)", np.array(lams))):
+                pv = guard(site, lambda: np.asarray(L.point(arg), dtype=float), ("point-vector", s))
+                if pv is not None:
+                    ok = pv.shape == (3, len(lams)) and float(np.max(np.abs(pv[:, 0] - rat(a["pointj"], s)))) <= TOL * max(mag, abs(c["j"]) * nw)
+                    if ok:
+                        for k, lam in enumerate(lams):
+                            one = np.asarray(L.point(lam), dtype=float).flatten()
+                            ok = ok and float(np.max(np.abs(pv[:, k] - one))) <= TOL * max(mag, 2 * nw)
+                    check(j, ok, site, feat, "column-k-is-not-the-point-of-parameter-k", detail, ("point-vector", s))
             cl = guard("Plucker.closest", lambda: L.closest(xq), ("closest", s))
             if cl is not None:
                 magx = max(mag, float(np.max(np.abs(xq))))
